@@ -221,3 +221,37 @@ func init() {
 		nilPan: "PNilDeref",
 	}
 }
+
+// names declared (again) by := or var inside the nodes.  With shadowing allowed (area flag), a local of
+// the enclosing scope that is redeclared inside a loop is NOT passed to the loop's functions: they are
+// passed by name, and the call would capture the inner declaration.  If the outer variable is really
+// read by the loop, the generated file does not type-check (status unavailable), never a wrong term.
+func (t *translator) redeclared(nodes []ast.Node) map[string]bool {
+	set := map[string]bool{}
+	if !t.a.shadow {
+		return set
+	}
+	for _, n := range nodes {
+		if n == nil {
+			continue
+		}
+		ast.Inspect(n, func(m ast.Node) bool {
+			switch d := m.(type) {
+			case *ast.AssignStmt:
+				if d.Tok.String() == ":=" {
+					for _, l := range d.Lhs {
+						if id, ok := l.(*ast.Ident); ok {
+							set[id.Name] = true
+						}
+					}
+				}
+			case *ast.ValueSpec:
+				for _, id := range d.Names {
+					set[id.Name] = true
+				}
+			}
+			return true
+		})
+	}
+	return set
+}
